@@ -531,11 +531,152 @@ func (g *Gen) cmd(depth int) node {
 	}
 }
 
+func call(ws ...string) StmtN {
+	l := make([]word, len(ws))
+	for i, w := range ws {
+		l[i] = lit(w)
+	}
+	return StmtN{false, callN{l}}
+}
+
+// a short command that fails, succeeds, or prints (used inside the scenarios)
+func (g *Gen) atom() StmtN {
+	switch g.R.IntN(6) {
+	case 0, 1:
+		return call("false")
+	case 2:
+		return call("true")
+	case 3:
+		return StmtN{false, callN{[]word{lit("echo"), g.word()}}}
+	case 4:
+		return StmtN{true, callN{[]word{lit("true")}}}
+	default:
+		return StmtN{false, callN{[]word{lit("echo"), {{'s', ""}}}}}
+	}
+}
+
+// scenarioErrexitFunc: errexit with functions whose bodies have if/elif conditions that fail and
+// && || chains; the function is called plainly, in a condition, negated and in a chain.
+//
+//	set -e; f() { if C; then A; elif C; then A; fi; A && A; A || A; echo tail; }; f ...
+func (g *Gen) scenarioErrexitFunc() []StmtN {
+	name := funcNames[g.R.IntN(len(funcNames))]
+	cond := func() []StmtN {
+		n := 1 + g.R.IntN(2)
+		l := make([]StmtN, n)
+		for i := range l {
+			l[i] = g.atom()
+		}
+		if g.R.IntN(2) == 0 {
+			l[0] = call("false")
+		}
+		return l
+	}
+	var body []StmtN
+	nIf := 1 + g.R.IntN(2)
+	for i := 0; i < nIf; i++ {
+		n := ifN{c: cond(), t: []StmtN{g.atom()}}
+		if g.R.IntN(2) == 0 {
+			n.e = &ifN{c: cond(), t: []StmtN{g.atom()}}
+			if g.R.IntN(2) == 0 {
+				n.e.e = &ifN{t: []StmtN{g.atom()}}
+			}
+		} else if g.R.IntN(2) == 0 {
+			n.e = &ifN{t: []StmtN{g.atom()}}
+		}
+		body = append(body, StmtN{false, n})
+		if g.R.IntN(2) == 0 {
+			body = append(body, StmtN{false, binN{g.R.IntN(2) == 0, g.atom(), g.atom()}})
+		}
+	}
+	if g.R.IntN(3) == 0 {
+		body = append(body, StmtN{false, binN{false, StmtN{false, binN{true, g.atom(), g.atom()}}, g.atom()}})
+	}
+	body = append(body, StmtN{false, callN{[]word{lit("echo"), lit("tail"), {{'s', ""}}}}})
+	if g.R.IntN(3) == 0 {
+		body = append(body, call("return", g.pick([]string{"0", "1", "3"})))
+	}
+	l := []StmtN{call("set", "-e"), {false, funcN{name, StmtN{false, blockN{body}}}}}
+	switch g.R.IntN(5) {
+	case 0:
+		l = append(l, StmtN{false, ifN{c: []StmtN{call(name)}, t: []StmtN{call("echo", "y")}, e: &ifN{t: []StmtN{call("echo", "n")}}}})
+	case 1:
+		l = append(l, StmtN{true, callN{[]word{lit(name)}}})
+	case 2:
+		l = append(l, StmtN{false, binN{false, call(name), call("echo", "c")}})
+	default:
+		l = append(l, call(name))
+	}
+	l = append(l, StmtN{false, callN{[]word{lit("echo"), lit("end"), {{'s', ""}}}}})
+	return l
+}
+
+// scenarioDeepLoops: loop nests of depth 3..4 with break/continue 1..4 at the innermost levels,
+// sometimes inside a nested block or if branch, with markers after every loop.
+func (g *Gen) scenarioDeepLoops() []StmtN {
+	depth := 3 + g.R.IntN(2)
+	vars := []string{"i", "j", "x", "y"}
+	var build func(d int) []StmtN
+	build = func(d int) []StmtN {
+		ctl := func() StmtN {
+			name := "break"
+			if g.R.IntN(3) == 0 {
+				name = "continue"
+			}
+			c := call(name, g.pick([]string{"2", "3", "3", "2", "4", "1"}))
+			switch g.R.IntN(4) {
+			case 0:
+				return StmtN{false, blockN{[]StmtN{c, call("echo", "no")}}}
+			case 1:
+				return StmtN{false, ifN{c: []StmtN{StmtN{false, caseN{word{{'v', vars[d-1]}}, []caseItem{
+					{[]patN{{w: lit("a")}}, []StmtN{call("true")}}, {[]patN{{any: true}}, []StmtN{call("false")}}}}}},
+					t: []StmtN{c, call("echo", "no")}}}
+			default:
+				return c
+			}
+		}
+		mark := StmtN{false, callN{[]word{lit("echo"), lit(fmt.Sprintf("L%d", d)), {{'v', vars[d-1]}}}}}
+		var body []StmtN
+		if d == depth {
+			body = []StmtN{mark, ctl(), call("echo", "after")}
+		} else {
+			body = append([]StmtN{mark}, build(d+1)...)
+			if d >= depth-1 && g.R.IntN(2) == 0 {
+				body = append(body, ctl())
+			}
+			body = append(body, StmtN{false, callN{[]word{lit("echo"), lit(fmt.Sprintf("E%d", d)), {{'s', ""}}}}})
+		}
+		items := []word{lit("a"), lit("b")}
+		if g.R.IntN(3) == 0 {
+			items = append(items, lit("c"))
+		}
+		return []StmtN{{false, forN{vars[d-1], items, body}}}
+	}
+	l := build(1)
+	l = append(l, StmtN{false, callN{[]word{lit("echo"), lit("end"), {{'s', ""}}}}})
+	return l
+}
+
 func (g *Gen) Program() []StmtN {
 	g.loopVar = 0
 	g.budget = 14 + g.R.IntN(30)
 	g.errexit = g.R.IntN(3) == 0
 	var l []StmtN
+	// a sixth of the programs each: the two targeted scenarios, followed by a few free statements
+	switch g.R.IntN(6) {
+	case 0:
+		l = g.scenarioErrexitFunc()
+		for i := g.R.IntN(3); i > 0; i-- {
+			l = append(l, g.stmt(2))
+		}
+		return l
+	case 1:
+		l = g.scenarioDeepLoops()
+		for i := g.R.IntN(3); i > 0; i-- {
+			l = append(l, g.stmt(2))
+		}
+		return l
+	}
 	if g.errexit {
 		l = append(l, StmtN{false, callN{[]word{lit("set"), lit("-e")}}})
 	}
